@@ -40,6 +40,8 @@ const (
 	resourceGroups          = "groups"
 	resourceUserExtras      = "userextras"
 	resourceServiceAccounts = "serviceaccounts"
+
+	impersonateHeaderPrefix = "Impersonate-"
 )
 
 // the fllowing code is copied from k8s.io/apiserver/pkg/endpoint/filters/impersonation.go and delete httplog for proxy
@@ -54,6 +56,8 @@ func WithNoLoggingImpersonation(handler http.Handler, a authorizer.Authorizer, s
 			return
 		}
 		if len(impersonationRequests) == 0 {
+			// nothing to impersonate: do not let stray headers of the family reach the upstream
+			deleteImpersonationHeaders(req.Header)
 			handler.ServeHTTP(w, req)
 			return
 		}
@@ -168,16 +172,20 @@ func WithNoLoggingImpersonation(handler http.Handler, a authorizer.Authorizer, s
 		audit.LogImpersonatedUser(ae, newUser)
 
 		// clear all the impersonation headers from the request
-		req.Header.Del(authenticationv1.ImpersonateUserHeader)
-		req.Header.Del(authenticationv1.ImpersonateGroupHeader)
-		for headerName := range req.Header {
-			if strings.HasPrefix(headerName, authenticationv1.ImpersonateUserExtraHeaderPrefix) {
-				req.Header.Del(headerName)
-			}
-		}
+		deleteImpersonationHeaders(req.Header)
 
 		handler.ServeHTTP(w, req)
 	})
+}
+
+// deleteImpersonationHeaders removes every header of the Impersonate-* family, so that nothing the client sent in it
+// reaches the upstream next to the impersonation headers the gateway generates itself.
+func deleteImpersonationHeaders(headers http.Header) {
+	for headerName := range headers {
+		if strings.HasPrefix(headerName, impersonateHeaderPrefix) {
+			delete(headers, headerName)
+		}
+	}
 }
 
 func unescapeExtraKey(encodedKey string) string {
